@@ -82,7 +82,19 @@ async def _explicit_asyncio(rt, fr):
                 exc = e
 
 
-@asynq_dec(asyncio_fn=_explicit_asyncio)
+def _explicit_asyncio_entry(rt, fr):
+    """What is passed as asyncio_fn=: a plain function handing back an awaitable - the coroutine itself, or (when the
+    run asks for it) an asyncio.Task wrapping it, as ensure_future / gather / run_in_executor based twins do."""
+    coro = _explicit_asyncio(rt, fr)
+    if getattr(rt, "explicit_returns_task", False):
+        import asyncio
+
+        rt.n_explicit_tasks = getattr(rt, "n_explicit_tasks", 0) + 1
+        return asyncio.ensure_future(coro)
+    return coro
+
+
+@asynq_dec(asyncio_fn=_explicit_asyncio_entry)
 def t_explicit(rt, fr):
     return (yield from lang.exec_node(rt, fr))
 
